@@ -49,6 +49,11 @@ namespace awkward {
     int64_t
       length() const override;
 
+    /// @brief True if no record/tuple has begun since construction or the
+    /// last #clear (the field builders have not been created yet).
+    bool
+      fresh() const;
+
     void
       clear() override;
 
